@@ -130,19 +130,26 @@ pub fn gen_op(rng: &mut Rng, model: &RefModel, pool: &[String], cfg: &GenCfg, si
         }
         12..=15 => format!("mkdirs {}", pe(rng, if refusal { 1 } else { 0 })),
         16..=31 => {
-            let want = if rng.chance(1, 3) { 1 } else if rng.chance(1, 25) { 4 } else { 3 };
+            // (sometimes a storage or the root itself: must be refused)
+            let want = if rng.chance(1, 16) { 2 } else if rng.chance(1, 3) { 1 } else if rng.chance(1, 25) { 4 } else { 3 };
             format!("put {} {}", pe(rng, want), hex(&pattern(*rng.pick(sizes), salt)))
         }
         32..=34 => {
-            let want = if rng.chance(1, 2) { 1 } else { 3 };
+            let want = if rng.chance(1, 10) { 2 } else if rng.chance(1, 2) { 1 } else { 3 };
             format!("mkstream {}", pe(rng, want))
         }
         35..=37 => format!("mknew {}", pe(rng, if refusal { 1 } else { 3 })),
         38..=47 => format!("rm {}", pe(rng, if refusal { 2 } else { 1 })),
         48..=53 => format!("rmdir {}", pe(rng, if refusal { 0 } else { 2 })),
         54..=56 => format!("rmall {}", pe(rng, 2)),
-        57..=62 => format!("get {}", pe(rng, 1)),
-        63..=64 => format!("open {}", pe(rng, 0)),
+        57..=62 => {
+            let want = if rng.chance(1, 8) { 2 } else { 1 };
+            format!("get {}", pe(rng, want))
+        }
+        63..=64 => {
+            let want = *rng.pick(&[0, 1, 2, 2]);
+            format!("open {}", pe(rng, want))
+        }
         65..=68 => format!("exists {}", pe(rng, 0)),
         69 => format!("isstream {}", pe(rng, 0)),
         70 => format!("isstorage {}", pe(rng, 0)),
@@ -467,9 +474,21 @@ pub fn handle_campaign(seed: u64, count: u64, max_ops: u64, ops_path: &str, impl
                 let w = r.below(100);
                 if w < 12 && !free_streams.is_empty() && open.len() < 4 {
                     let id = (0..8).find(|i| !open.contains_key(i)).unwrap();
-                    let p = (*r.pick(&free_streams)).clone();
-                    open.insert(id, p.clone());
-                    format!("hopen {} {}", id, enc(&p))
+                    if r.chance(1, 8) {
+                        // not a stream: the root under one of its spellings, or a storage — must be refused
+                        let storages: Vec<String> = model.all_paths().into_iter().filter(|(_, s)| !*s).map(|(p, _)| p).collect();
+                        let target = match r.below(4) {
+                            0 => "/".to_string(),
+                            1 => "".to_string(),
+                            2 => format!("/{}/..", pool[0]),
+                            _ => if storages.is_empty() { "/".to_string() } else { r.pick(&storages).clone() },
+                        };
+                        format!("hopen {} {}", id, enc(&target))
+                    } else {
+                        let p = (*r.pick(&free_streams)).clone();
+                        open.insert(id, p.clone());
+                        format!("hopen {} {}", id, enc(&p))
+                    }
                 } else if w < 16 && open.len() < 4 {
                     let id = (0..8).find(|i| !open.contains_key(i)).unwrap();
                     let nm = r.pick(&pool).clone();
